@@ -31,6 +31,7 @@ import (
 
 type xlField struct {
 	name, typ, zero string
+	goName          string // what the source calls it (documentation only)
 }
 
 type xlFunc struct {
@@ -52,6 +53,10 @@ type xlFunc struct {
 	results []types.Object
 	assigns map[types.Object][]ast.Expr // for the interval analysis
 	rngBusy map[types.Object]bool
+	stubRho  string
+	keep     []string       // fields the driver reads: present in a stub as well (name:type:zero)
+	declKind string         // "p", "r" or "l": what is being declared now
+	declNo   map[string]int
 	hoisted []string // loop conditions and bodies as definitions of their own (inner loops first)
 }
 
@@ -94,14 +99,21 @@ func xlateFind(f *ast.File, recv, name string) *ast.FuncDecl {
 }
 
 // Translate returns the Lean text (a namespace <leanName> with St, body, run) of one function.
-func xlateFunc(x *X, fset *token.FileSet, info *types.Info, fd *ast.FuncDecl, leanName string, fuel []string) string {
+func xlateFunc(x *X, fset *token.FileSet, info *types.Info, fd *ast.FuncDecl, leanName string, fuel []string, keep []string, rho string) (res string) {
+	outp := &res
 	t := &xlFunc{x: x, fset: fset, info: info, fd: fd, name: leanName, byObj: map[types.Object]string{}, byRecv: map[string]string{},
-		used: map[string]bool{}, fuel: fuel, assigns: map[types.Object][]ast.Expr{}, rngBusy: map[types.Object]bool{}}
+		used: map[string]bool{}, fuel: fuel, keep: keep, stubRho: rho, assigns: map[types.Object][]ast.Expr{}, rngBusy: map[types.Object]bool{}, declKind: "p", declNo: map[string]int{}}
+	var out string
 	defer func() {
 		if r := recover(); r != nil {
-			x.fail("xlate %s: %v", leanName, r)
+			// Outside the subset: not an error of the tie by itself (the function is still compared with the model by the
+			// correspondence streams). A stub with the same interface keeps the driver compiling; `translated = false`
+			// tells it to skip the comparison, and the equivalence proofs (a change detector) no longer build.
+			x.xlateNotes = append(x.xlateNotes, fmt.Sprintf("%s: %v", leanName, r))
+			*outp = t.stub()
 		}
 	}()
+	_ = out
 	// receiver
 	if fd.Recv != nil && len(fd.Recv.List) == 1 && len(fd.Recv.List[0].Names) == 1 {
 		t.recv = info.Defs[fd.Recv.List[0].Names[0]]
@@ -116,6 +128,7 @@ func xlateFunc(x *X, fset *token.FileSet, info *types.Info, fd *ast.FuncDecl, le
 	if fd.Type.Results != nil {
 		for _, r := range fd.Type.Results.List {
 			lt, z := t.leanType(info.Types[r.Type].Type)
+			t.declKind = "r"
 			if len(r.Names) == 0 {
 				rts, rzs = append(rts, lt), append(rzs, z)
 			}
@@ -134,6 +147,7 @@ func xlateFunc(x *X, fset *token.FileSet, info *types.Info, fd *ast.FuncDecl, le
 	default:
 		t.rho, t.rhoZ = "("+strings.Join(rts, " × ")+")", "("+strings.Join(rzs, ", ")+")"
 	}
+	t.declKind = "l"
 	t.collectAssigns(fd.Body)
 	body := t.block(fd.Body.List, 1)
 	if t.loopNo != len(t.fuel) {
@@ -143,7 +157,7 @@ func xlateFunc(x *X, fset *token.FileSet, info *types.Info, fd *ast.FuncDecl, le
 	fmt.Fprintf(&b, "namespace %s\n\n", leanName)
 	fmt.Fprintf(&b, "/-- one field per parameter, result, local declaration and receiver field of `%s` -/\nstructure St where\n", t.goName())
 	for _, f := range t.fields {
-		fmt.Fprintf(&b, "  %s : %s := %s\n", f.name, f.typ, f.zero)
+		fmt.Fprintf(&b, "  /-- `%s` -/\n  %s : %s := %s\n", f.goName, f.name, f.typ, f.zero)
 	}
 	if len(t.fields) == 0 {
 		fmt.Fprintf(&b, "  unit : Unit := ()\n")
@@ -165,7 +179,27 @@ func xlateFunc(x *X, fset *token.FileSet, info *types.Info, fd *ast.FuncDecl, le
 		}
 	}
 	fmt.Fprintf(&b, "def run (s : St) : V (Rho × St) := Fabio.Xlate.run body (fun s => %s) s\n\n", bare)
+	fmt.Fprintf(&b, "/-- the function is inside the translated subset -/\ndef translated : Bool := true\n\n")
 	fmt.Fprintf(&b, "end %s", leanName)
+	return b.String()
+}
+
+// stub: same interface (St with the fields the driver uses, Rho, run), nothing translated.
+func (t *xlFunc) stub() string {
+	var b strings.Builder
+	fmt.Fprintf(&b, "namespace %s\n\n/-- NOT TRANSLATED (outside the subset, see xlateNotes): interface stub -/\nstructure St where\n", t.name)
+	for _, k := range t.keep {
+		p := strings.SplitN(k, ":", 3)
+		fmt.Fprintf(&b, "  %s : %s := %s\n", p[0], p[1], p[2])
+	}
+	rho := t.stubRho
+	if rho == "" {
+		rho = t.rho
+	}
+	if rho == "" {
+		rho = "Unit"
+	}
+	fmt.Fprintf(&b, "\nabbrev Rho := %s\n\ndef run (_ : St) : V (Rho × St) := .panic \"not translated\"\n\ndef translated : Bool := false\n\nend %s", rho, t.name)
 	return b.String()
 }
 
@@ -232,14 +266,14 @@ func (t *xlFunc) declare(obj types.Object) string {
 	if n, ok := t.byObj[obj]; ok {
 		return n
 	}
-	name := obj.Name()
-	if name == "_" {
-		name = "blank"
-	}
+	// Fields are named by ROLE, not by the source's spelling, so that renaming a parameter, result or local leaves
+	// the generated module (and the proofs about it) unchanged: p<i> parameters, r<i> named results, l<i> locals in
+	// order of declaration. The Go name is kept as documentation.
 	lt, z := t.leanType(obj.Type())
-	n := t.fresh(leanIdent(name))
+	n := t.fresh(fmt.Sprintf("%s%d", t.declKind, t.declNo[t.declKind]))
+	t.declNo[t.declKind]++
 	t.byObj[obj] = n
-	t.fields = append(t.fields, xlField{n, lt, z})
+	t.fields = append(t.fields, xlField{n, lt, z, obj.Name()})
 	return n
 }
 
@@ -264,9 +298,9 @@ func (t *xlFunc) recvField(sel *ast.SelectorExpr) (string, bool) {
 		t.bad(sel, "unresolved receiver field %s", sel.Sel.Name)
 	}
 	lt, z := t.leanType(s.Type())
-	n := t.fresh(leanIdent(id.Name + "_" + sel.Sel.Name))
+	n := t.fresh(leanIdent("m_" + sel.Sel.Name))
 	t.byRecv[sel.Sel.Name] = n
-	t.fields = append(t.fields, xlField{n, lt, z})
+	t.fields = append(t.fields, xlField{n, lt, z, id.Name + "." + sel.Sel.Name})
 	return n, true
 }
 
@@ -504,6 +538,10 @@ func (t *xlFunc) binary(n *ast.BinaryExpr) xlExpr {
 	case token.NEQ:
 		return xlExpr{pre, a + " != " + b}
 	case token.LSS, token.LEQ, token.GTR, token.GEQ:
+		if lk == "Int" || rk == "Int" {
+			f := map[token.Token]string{token.LSS: "ltI", token.LEQ: "leI", token.GTR: "gtI", token.GEQ: "geI"}[n.Op]
+			return xlExpr{pre, f + " " + a + " " + b}
+		}
 		op := map[token.Token]string{token.LSS: "<", token.LEQ: "≤", token.GTR: ">", token.GEQ: "≥"}[n.Op]
 		return xlExpr{pre, "decide (" + a + " " + op + " " + b + ")"}
 	}
@@ -895,6 +933,26 @@ func (t *xlFunc) stmt(s ast.Stmt, d int) string {
 		if k < len(t.fuel) {
 			fuel = t.fuel[k]
 		}
+		if fuel == "auto" {
+			// a loop `for len(x) <op> … {}`: one more round than x has elements (that this suffices is proved, not
+			// assumed: running out of fuel is a panic value and the no-panic theorem covers it)
+			fuel = ""
+			if n.Cond != nil {
+				ast.Inspect(n.Cond, func(m ast.Node) bool {
+					if call, ok := m.(*ast.CallExpr); ok && fuel == "" {
+						if id, ok := call.Fun.(*ast.Ident); ok && id.Name == "len" && len(call.Args) == 1 {
+							if e := t.expr(call.Args[0]); len(e.pre) == 0 {
+								fuel = paren(e.term) + ".length + 1"
+							}
+						}
+					}
+					return true
+				})
+			}
+			if fuel == "" {
+				t.bad(n, "no automatic fuel for this loop (its condition tests no len(x))")
+			}
+		}
 		list := n.Body.List
 		if n.Post != nil {
 			list = append(append([]ast.Stmt{}, list...), n.Post)
@@ -1188,6 +1246,8 @@ func xlHasBreakOutsideLoop(n ast.Node) bool {
 type xlSpec struct {
 	recv, name, lean string
 	fuel             []string
+	keep             []string // "field:type:zero" of the fields the driver reads (for the stub)
+	rho              string   // result type as the driver expects it (for the stub)
 }
 
 func xlateEmit(x *X, rel string, specs []xlSpec) {
@@ -1204,6 +1264,9 @@ func xlateEmit(x *X, rel string, specs []xlSpec) {
 			x.fail("xlate: function %s.%s not found in %s", sp.recv, sp.name, rel)
 			continue
 		}
-		x.defRaw(xlateFunc(x, fset, info, fd, sp.lean, sp.fuel))
+		x.defRaw(xlateFunc(x, fset, info, fd, sp.lean, sp.fuel, sp.keep, sp.rho))
 	}
+	var notes []string
+	notes = append(notes, x.xlateNotes...)
+	x.defStrList("xlateNotes", notes)
 }
